@@ -1129,3 +1129,7 @@ mod tests {
         assert!(narrow.restrictiveness() > broad.restrictiveness());
     }
 }
+
+#[cfg(kani)]
+#[path = "/verif/harness/anda_cognitive_nexus/governance_decision.rs"]
+mod verif_kani;
